@@ -37,6 +37,8 @@ func main() {
 		runRuntime(checkC02())
 	case "C03":
 		runRuntime(checkC03())
+	case "C04":
+		runRuntime(checkC04())
 	case "gen-sample":
 		// debugging aid: print the DSL of a few specs
 		run := vc.New("sample")
